@@ -96,6 +96,7 @@ class World:
         self.on_change = None                # invariant hook (wire / pool changed)
         self.cur_token = {}                  # caller name -> token being worked on
         self.observing = False               # set while an oracle inspects the SUT
+        self.fault_sites = []                # (op index, fault, op kind, httpcore site)
 
     def rng(self, name):
         return self.streams.get(name)
